@@ -115,7 +115,7 @@ for nmod, nslots, logins in chosen:
             for si in range(nslots):
                 objs = []
                 for cls in R.choice(PLACEMENTS):
-                    objs.append(S.obj("L0", cls, R.choice(KR), pub_attrs=R.random() < 0.8))
+                    objs.append(S.obj("L0", cls, R.choice(KR), pub_attrs=R.random() < 0.8, attr_pad=R.choice([0, 0, 0, 1, 3])))
                 if R.random() < 0.5:
                     objs += S.pair("L1", KR[1])
                 if R.random() < 0.2:
